@@ -8,6 +8,24 @@ VERIF = os.path.dirname(os.path.dirname(os.path.abspath(__file__)))
 ALL = [f"C{i:02d}" for i in range(1, 21)]
 
 CHECKS = {
+    "C11": dict(
+        category="exploration",
+        technique="bounded-exhaustive enumeration of declaration grammar x documentation placements, procedures, and every cursor column of call argument lists; hover parsed back and compared with the model",
+        text=("Exhaustive enumeration of declarations — 7 types x their kind/len selectors (incl. '*8', spaced 'kind = 8', "
+              "nested function calls in the kind) x ordered attribute lists up to a length bound x entity forms (entity-level "
+              "dimension and character length, initialisers, middle of three entities) x with/without '::' x 8 documentation "
+              "placements (Doxygen '!>' before, '!<' trailing, FORD '!!' after, two-line blocks, a blank line in between, a '!>' "
+              "block of the next entity right after), PARAMETER values with nested parentheses, arrays and strings, dummy "
+              "arguments with INTENT/OPTIONAL; the hover is parsed back (TYPE[selector][, ATTR...] :: name [= value] + docs) "
+              "and compared field by field with the model. Procedures with 0-3 dummies must list them in order with their "
+              "declarations and documentation. Signature help is requested at every column of the argument list of 8 calls "
+              "(positional, keyword, nested calls, parenthesised sub-expressions, strings containing ',' and '(') and must give "
+              "the callee's parameter list and the active parameter computed by a reference scanner."),
+        note=("Trusted: the hover parser and the reference signature scanner in vf/checks/c11.py. Comparison is modulo blanks "
+              "and letter case; both orders of restating an entity-level character length are accepted; documentation of a "
+              "multi-entity statement is not attributed to one entity."),
+        design="DESIGN.md §4 C11",
+    ),
     "C07": dict(
         category="fault_enumeration",
         technique="fault enumeration: every applicable (defect class, seeding position) pair on valid base programs, expected diagnostic derived from the seeding",
